@@ -130,6 +130,9 @@ fn log_ret(r: &str, v: i64, same: bool) {
         if !st.th[t].retrying {
             // a finished call of a finite program is progress
             st.since_progress = 0;
+            for th in st.th.iter_mut() {
+                th.since = 0;
+            }
         }
     }
     st.api.push(json!({"e":"ret","t":t,"r":r,"v":v,"same":same,"nops":n}));
@@ -636,8 +639,12 @@ pub fn run_opt(
         if phase_outcome != Outcome::Done {
             r.abort_run();
         }
-        for j in joins {
-            let _ = j.join();
+        let fin = r.finished_threads();
+        for (i, j) in joins.into_iter().enumerate() {
+            if phase_outcome == Outcome::Done || fin.get(i + 1).copied().unwrap_or(false) {
+                let _ = j.join();
+            }
+            // the threads of a stuck run stay parked; their handles are leaked with them
         }
         let (src, mut st_steps) = r.take_source();
         source = src;
